@@ -1713,3 +1713,89 @@ Proof.
     exists so. split; [apply in_rev in Hso1; exact Hso1|].
     rewrite Hp1 in Hview. exact (Hview i Hfi).
 Qed.
+
+
+(* ------------------------------------------------------------------------------------------------
+   Non-vacuity: a concrete well-formed document (catalog, page tree, a page with a dangling /Foo 99 0 R
+   that the writer drops, a content stream whose stale /Length is replaced), and what the strict reader
+   returns on the model's output for it. *)
+Definition ex_doc : doc :=
+  {| d_objects :=
+       [ (10, {| i_val := ODict [([80; 97; 103; 101; 115], ORef 20); ([84; 121; 112; 101], OName [67; 97; 116; 97; 108; 111; 103])];
+                 i_stream := None |});
+         (20, {| i_val := ODict [([67; 111; 117; 110; 116], OInt 1); ([75; 105; 100; 115], OArr [ORef 30]);
+                                 ([84; 121; 112; 101], OName [80; 97; 103; 101; 115])];
+                 i_stream := None |});
+         (30, {| i_val := ODict [([67; 111; 110; 116; 101; 110; 116; 115], ORef 40);
+                                 ([70; 111; 111], ORef 99);
+                                 ([80; 97; 114; 101; 110; 116], ORef 20);
+                                 ([84; 121; 112; 101], OName [80; 97; 103; 101])];
+                 i_stream := None |});
+         (40, {| i_val := ODict [([76; 101; 110; 103; 116; 104], OInt 3)];
+                 i_stream := Some [104; 101; 108; 108; 111; 10; 255; 0] |}) ];
+     d_trailer := [([82; 111; 111; 116], ORef 10); ([83; 105; 122; 101], OInt 41)];
+     d_version := [49; 46; 51];
+     d_id1 := [1; 2; 254]; d_id2 := [] |}.
+
+Ltac in_cases H := repeat (destruct H as [H|H]; [try (inversion H; subst; clear H)|]); try (destruct H).
+
+Example wf_doc_example : wf_doc ex_doc.
+Proof.
+  constructor.
+  - (* closed *)
+    unfold doc_closed, closed. change (graph_of ex_doc) with [(10, [20]); (20, [30]); (30, [40; 20]); (40, @nil N)].
+    change (roots_of ex_doc) with [10]. cbn [map fst]. split; [|split].
+    + repeat constructor; cbn; intros H; in_cases H; discriminate.
+    + intros x H. in_cases H. cbn. tauto.
+    + intros k cs y H Hy. in_cases H; in_cases Hy; cbn; tauto.
+  - unfold wf_doc_objs, ex_doc. cbn [d_objects].
+    repeat constructor; cbn; try (intros H; in_cases H; discriminate); try lia; try exact I.
+  - cbn. repeat split; try (intros H; in_cases H; discriminate); repeat constructor; lia.
+  - intros k i H Hs. cbn [d_objects ex_doc] in H. in_cases H; cbn in Hs; try congruence. eexists. reflexivity.
+  - intros k i data H Hs. cbn [d_objects ex_doc] in H. in_cases H; cbn in Hs; try discriminate.
+    injection Hs as <-. repeat constructor; lia.
+  - exists 49, 51. repeat split.
+  - cbn. split; repeat constructor; lia.
+  - exists 10. eexists. repeat split.
+  - exists 41%Z. reflexivity.
+  - cbn [d_trailer ex_doc map fst]. split; [|split].
+    + repeat constructor; cbn; intros H; in_cases H; discriminate.
+    + intros H. in_cases H; discriminate.
+    + intros k i dd H Hv. cbn [d_objects ex_doc] in H. in_cases H; cbn in Hv; injection Hv as <-;
+        cbn [map fst]; repeat constructor; cbn; intros H; in_cases H; discriminate.
+  - cbn. intros H. in_cases H; discriminate.
+  - cbn. intros H. in_cases H; discriminate.
+Qed.
+
+(* the strict reader on the model's output for ex_doc: version, trailer (with /Size 5 and the /ID pair),
+   the four objects under their new numbers with renumbered references, /Foo dropped, /Length 8 and the
+   stream bytes, and the accounted regions (header, four bodies, section; one EOL gap before startxref) *)
+Example write_read_strict_example :
+  match read_strict (wm_out ex_doc) with
+  | RsOk f =>
+      sf_version f = [49; 46; 51] /\
+      sf_trailer f = [([82; 111; 111; 116], SpRef 1 0); ([83; 105; 122; 101], SpInt 5);
+                      ([73; 68], SpArr [SpStr [1; 2; 254]; SpStr []])] /\
+      map (sobj_view (wm_out ex_doc)) (rev (sf_objs f))
+      = [(1, 0, SpDict [([80; 97; 103; 101; 115], SpRef 2 0);
+                        ([84; 121; 112; 101], SpName [67; 97; 116; 97; 108; 111; 103])], None);
+         (2, 0, SpDict [([67; 111; 117; 110; 116], SpInt 1); ([75; 105; 100; 115], SpArr [SpRef 3 0]);
+                        ([84; 121; 112; 101], SpName [80; 97; 103; 101; 115])], None);
+         (3, 0, SpDict [([67; 111; 110; 116; 101; 110; 116; 115], SpRef 4 0);
+                        ([80; 97; 114; 101; 110; 116], SpRef 2 0);
+                        ([84; 121; 112; 101], SpName [80; 97; 103; 101])], None);
+         (4, 0, SpDict [([76; 101; 110; 103; 116; 104], SpInt 8)], Some [104; 101; 108; 108; 111; 10; 255; 0])] /\
+      sf_regions f = [(0, 15); (15, 64); (64, 123); (123, 186); (186, 242); (242, 401); (402, 422)]
+  | RsErr _ _ => False
+  end.
+Proof. vm_compute. repeat split. Qed.
+
+(* and the theorem applies to it *)
+Example write_read_strict_applies :
+  exists f, read_strict (wm_out ex_doc) = RsOk f /\ sf_trailer f = expected_trailer ex_doc
+            /\ length (sf_objs f) = 4%nat.
+Proof.
+  destruct (write_read_strict_lemma ex_doc wf_doc_example) as [f [H1 [_ [_ [_ [H2 [H3 _]]]]]]].
+  - vm_compute. reflexivity.
+  - exists f. repeat split; [exact H1 | exact H2 | rewrite H3; vm_compute; reflexivity].
+Qed.
